@@ -1239,7 +1239,7 @@ func TestVerifC10(t *testing.T) {
 			c10Runs(c, "runs/key", []int{25, 40, 41, 64}, 3, bigKey)
 			phase("runs/key")
 		} else {
-			c10Big(c, "binary", []int{21}, 7, bigPlain)
+			c10Big(c, "binary", []int{21}, 6, bigPlain)
 			phase("binary")
 			c10Big(c, "binary/key", []int{21}, 3, bigKey)
 			phase("binary/key")
